@@ -511,7 +511,9 @@ pub fn gen_c14(rng: &mut Rng, _tier: Tier) -> NetProgram {
 
 pub fn gen_c04(rng: &mut Rng, tier: Tier) -> NetProgram {
     let nmod = 2 + rng.small(6) as usize;
-    let mut prog = NetProgram { seed: rng.u64(), ..Default::default() };
+    // "the same seed" includes the edge values of the seed type
+    let seed = if rng.chance(1, 8) { *rng.pick(&[0u64, 0, 1, u64::MAX, 1 << 63, 0xffff_ffff, 1 << 32]) } else { rng.u64() };
+    let mut prog = NetProgram { seed, ..Default::default() };
     for i in 0..nmod {
         prog.modules.push(ModSpec { name: format!("m{i}"), parent: if i > 0 && rng.chance(1, 4) { rng.below(i as u64) as i32 } else { -1 }, stages: 1 + rng.small(2) as u8, gates: vec![("p".into(), 3)], panic_at: 255, ..Default::default() });
     }
@@ -544,6 +546,10 @@ pub fn gen_c04(rng: &mut Rng, tier: Tier) -> NetProgram {
                     0 => Act::Random,
                     _ => Act::Send { gate: rng.below(3) as u32, delay_ns: if rng.chance(1, 4) { rng.below(10_000_000) } else { 0 }, body: rng.below(6) as u8 },
                 });
+            }
+            // the global view of the simulation (globals(), parent / child handles) is part of what a model observes
+            if rng.chance(1, 6) {
+                acts.push(Act::QueryTree);
             }
             prog.modules[i].beats.push(Beat { at_ns: t, acts });
             t += if rng.chance(1, 4) { 0 } else { rng.below(30_000_000) };
